@@ -969,7 +969,10 @@ KNOWN_TEXT = {
 
 
 def process(chk, jobs):
+    import time
+    t0 = time.time()
     results = run_impl(chk, jobs)
+    chk.extra.setdefault("timing_s", {})["implementation"] = round(time.time() - t0, 1)
     out = {"violations": [], "known": []}
     sendable = []
     for i, (job, res) in enumerate(zip(jobs, results)):
@@ -983,7 +986,10 @@ def process(chk, jobs):
         chk.case((job["op"], job.get("s"), json.dumps(job.get("t")), job.get("modes"), str(job.get("ord"))), nontrivial=nontrivial)
         if ok:
             sendable.append(i)
+    chk.extra["timing_s"]["judging"] = round(time.time() - t0 - chk.extra["timing_s"]["implementation"], 1)
+    t1 = time.time()
     compare_with_model(chk, jobs, results, sendable, out)
+    chk.extra["timing_s"]["model"] = round(time.time() - t1, 1)
     return results, out
 
 
